@@ -162,11 +162,50 @@ class RecheckProp(Prop):
              "what": "liveness: the v1 recheck iteration ends for every (recorded, on-disk) state"},
             {"module": "HashChecker.tla", "cfg": "MC_HashChecker_live.cfg",
              "what": "liveness: the v2 / hybrid recheck iteration ends for every (recorded, on-disk) state"},
+            {"module": "CheckerProto.tla", "cfg": "MC_CheckerProto.cfg",
+             "what": "protocol of one Checker object: generators opened / advanced / given up, results(), content changing in "
+                     "between: the figure is always the exact share (Exact, Hundred)"},
+            {"module": "CheckerProto.tla", "cfg": "MC_CheckerProto_instance.cfg", "expect": "fail", "workers": 2,
+             "what": "seed R15-C16: counters on the object, reset at the end of a walk - a walk given up leaks into the next"},
+            {"module": "CheckerProto.tla", "cfg": "MC_CheckerProto_cached.cfg", "expect": "fail", "workers": 2,
+             "what": "results() answering from the stored figure without walking again: wrong once the content changed"},
             {"module": "FeedChecker.tla", "cfg": "MC_FeedChecker_code.cfg", "expect": "fail",
              "what": "iter_pieces as found at the pinned commit must violate StreamCorrect"},
             {"module": "HashChecker.tla", "cfg": "MC_HashChecker_code.cfg", "expect": "fail",
              "what": "__next__ as found at the pinned commit (single retry) must violate StreamCorrect"},
         ]
+
+    def records(self, cases, results):
+        out = []
+        for rs in results:
+            out.extend(rs if isinstance(rs, list) else [rs])
+        return out
+
+    def case_id(self, rec_id):
+        return (rec_id - 10 ** 7) // 100 if isinstance(rec_id, int) and rec_id >= 10 ** 7 else rec_id
+
+    def proto_cases(self, tier, rng, clauses):
+        """Behaviours of CheckerProto.tla (TLC -simulate): one Checker object, generators opened / advanced / given
+        up, results() asked, pieces damaged and repaired in between - replayed into the real Checker."""
+        from . import core, tlaval
+        from .core import Machinery
+        n = 1500 if tier == "thorough" else 120
+        r = core.run_tlc("CheckerProto.tla", "Sim_CheckerProto.cfg", workers=1, simulate="num=%d" % n, depth=11,
+                         seed=core.SEED, timeout=900)
+        if r.error or r.violation:
+            raise Machinery("CheckerProto simulation failed: %s" % (r.error or r.violation))
+        hs = [h[1] for h in tlaval.find_tagged(r.out, "PHIST")]
+        if len(hs) < n // 2:
+            raise Machinery("CheckerProto simulation produced %d of %d behaviours" % (len(hs), n))
+        out = []
+        for k, h in enumerate(hs):
+            ops = [{"op": s["op"], "g": s["g"]} for s in h]
+            if not any(s["op"] == "results" for s in ops):
+                continue
+            out.append({"op": "proto", "npieces": ops[0]["g"], "ops": ops, "version": (1, 2, 3)[k % 3], "P": (B, 2 * B)[k % 2],
+                        "group": "none", "clauses": clauses})
+        self._proto = {"behaviours": len(hs), "replayed": len(out), "cmd": r.cmd}
+        return out
 
     def mk(self, rng, P, v, src, dmg_n, clauses, allow_single=True, route=None, group=None, path_mode="root",
            tree=None):
@@ -214,7 +253,12 @@ class RecheckProp(Prop):
                 m = copy.deepcopy(r)
                 m["ppm"] = 0
                 out.append((m, "C05.findroot"))
-        for r in first(recs, lambda r: r["status"] == "ok" and r.get("op") != "findroot"):
+        if self.pid == "C16":
+            for r in first(recs, lambda r: r.get("op") == "proto" and r["status"] == "ok" and len(r["truth"]) >= 2):
+                m = copy.deepcopy(r)
+                m["truth"][0][0] = not m["truth"][0][0]
+                out.append((m, "C16.proto"))
+        for r in first(recs, lambda r: r["status"] == "ok" and r.get("op") not in ("findroot", "proto")):
             if self.pid == "C05":
                 m = copy.deepcopy(r)
                 m["ppm"] = m["ppm2"] = 99999999
@@ -232,6 +276,8 @@ class RecheckProp(Prop):
         return case
 
     def nontrivial(self, case):
+        if case.get("op") == "proto":
+            return ("proto", case["version"], case["P"], str(case["ops"]))
         if case.get("scaled"):
             return ("scaled", case["version"], case["P"], tuple(case["recs"]),
                     tuple((d["present"], d["len"], tuple(d["flips"])) for d in case["disk"]))
@@ -247,11 +293,16 @@ class RecheckProp(Prop):
     def extra_coverage(self, tier, cases, recs):
         sc = getattr(self, "_scaled", None)
         out = {"scaled_world_replay": sc} if sc else {}
+        if getattr(self, "_proto", None):
+            out["checker_protocol_replay"] = self._proto
         if getattr(self, "_findroot", None):
             out["findroot_universe_replay"] = self._findroot
         return out
 
     def sample(self, case, rec):
+        if case.get("op") == "proto":
+            return {"protocol_ops": [(s["op"], s["g"]) for s in case["ops"]], "version": case["version"],
+                    "figure_ppm": rec.get("ppm") if rec else None, "truth": rec.get("truth") if rec else None}
         if case.get("op") == "findroot":
             return {"findroot_world": case["world"], "version": case["version"], "path_mode": case["path_mode"],
                     "found": rec.get("got") if rec else None}
@@ -308,7 +359,7 @@ class C16(RecheckProp):
         lim = None if tier == "thorough" else 1500
         sc = scaled_universe(cfg1, 1, cl, rng, lim) + scaled_universe(cfg2, 2, cl, rng, lim)
         self._scaled = {"v1": cfg1, "v2": cfg2, "cases": len(sc), "complete": lim is None}
-        return out + sc
+        return out + sc + self.proto_cases(tier, rng, ["C16.proto"])
 
 
 class C04(RecheckProp):
